@@ -395,7 +395,7 @@ def _unordered_pair_err(a, b):
     return min(e1, e2)
 
 
-RESC_FUNCS = ["coords", "distance", "segment", "tangent", "origin_to", "polygon", "image", "tangent_iso", "angle", "segment_ideal", "tangent_unit"]
+RESC_FUNCS = ["coords", "distance", "segment", "tangent", "origin_to", "polygon", "image", "tangent_iso", "angle", "segment_ideal", "tangent_unit", "angle_units"]
 
 
 def rescale_cases(dims, seed, quick):
@@ -450,6 +450,11 @@ def rescale_cases(dims, seed, quick):
                 yield {"f": "polygon", "n": n, "pts": list(t), "lam": list(lam)}
                 yield {"f": "angle", "n": n, "pts": list(t), "lam": list(lam)}
                 yield {"f": "tangent_iso", "n": n, "pts": list(t), "lam": list(lam)}
+            # two tangent vectors at one basepoint, each ONE unit (point row, vector row) carrying its OWN factor: every
+            # sign combination of the two units (equal and opposite), also as units of one composite
+            for lam in itertools.product(LAM, repeat=2):
+                if lam != (1.0, 1.0):
+                    yield {"f": "angle_units", "n": n, "pts": list(t), "lam": list(lam)}
 
 
 def _geom(f, n, K, lam, seed, quick):
@@ -542,6 +547,19 @@ def _geom(f, n, K, lam, seed, quick):
         p = H.Point(X[0])
         a = p.unit_tangent_towards(H.Point(X[1])).angle(p.unit_tangent_towards(H.Point(X[2])))
         out["angle"] = ("abs6", a)
+    elif f == "angle_units":
+        p = H.Point(_proj(K[0], 1.0))
+        d1 = np.array(p.unit_tangent_towards(H.Point(_proj(K[1], 1.0))).proj_data, dtype=float)      # (2, n+1)
+        d2 = np.array(p.unit_tangent_towards(H.Point(_proj(K[2], 1.0))).proj_data, dtype=float)
+        u1, u2 = lam[0] * d1, lam[1] * d2
+        out["angle"] = ("abs6", H.TangentVector(u1.copy()).angle(H.TangentVector(u2.copy())))
+        out["angle-swapped"] = ("abs6", H.TangentVector(u2.copy()).angle(H.TangentVector(u1.copy())))
+        out["angle-point-vector"] = ("abs6", H.TangentVector(u1[0].copy(), u1[1].copy()).angle(H.TangentVector(u2[0].copy(), u2[1].copy())))
+        # composite of three units against a composite of three units: the factors differ unit by unit on both sides
+        out["angle-composite"] = ("abs6", H.TangentVector(np.stack([u1, u2, u1])).angle(H.TangentVector(np.stack([u2, u1, d1.copy()]))))
+        # oracle: the Riemannian angle of the two unscaled directions at the common basepoint
+        c = hyp.mink(d1[1], d2[1]) / math.sqrt(hyp.mink(d1[1], d1[1]) * hyp.mink(d2[1], d2[1]))
+        out["angle-oracle"] = ("abs6", np.asarray(out["angle"][1], dtype=float) - math.acos(min(1.0, max(-1.0, float(c)))))
     elif f == "tangent_iso":
         p = H.Point(X[0])
         t1 = p.unit_tangent_towards(H.Point(X[1]))
@@ -572,7 +590,7 @@ def case_rescale(case):
         if a.shape != b.shape:
             v.append({"key": "rescale/%s/shape" % f, "msg": "%s: %s vs %s" % (name, a.shape, b.shape)})
             continue
-        if mode == "abs6" and f == "angle" and np.isnan(a).any():
+        if mode == "abs6" and f in ("angle", "angle_units") and np.isnan(a).any():
             # arccos just outside [-1, 1] for an exactly straight angle: NaN on the unscaled input is
             # not a rescaling relation (it is C13's business); nothing to compare
             nan_ref += 1
